@@ -171,8 +171,9 @@ def check_property(prop, tier, seed):
                 if not real_fail:
                     continue
                 unknown = [f for f in real_fail if not known_match(known, prop, name, f)]
-                verdict, rpath, detail = replay_candidate(scratch, repo_copy, target_dir, log_dir, prop, r)
-                r.replay = {"verdict": verdict, "path": rpath, "detail": detail}
+                if unknown:
+                    verdict, rpath, detail = replay_candidate(scratch, repo_copy, target_dir, log_dir, prop, r)
+                    r.replay = {"verdict": verdict, "path": rpath, "detail": detail}
                 if unknown:
                     if verdict == "reproduced":
                         violations.append((name, rpath, unknown))
